@@ -18,7 +18,8 @@ from fractions import Fraction
 from . import core
 
 THEOREMS = ["C11_expr", "C11_residual", "C11_total", "C11_total_fixed_table", "C11_total_refuted_ne",
-            "C11_loop_range", "C11_three_part_range", "C11_three_part_range_old_reading_refuted", "C11_example"]
+            "C11_loop_range", "C11_three_part_range", "C11_three_part_range_old_reading_refuted",
+            "C11_function_partial", "C11_function_order", "C11_matrix_residual", "C11_square_not_transposed", "C11_example"]
 
 GEN_PY = "src/pymoca/backends/casadi/generator.py"
 
@@ -380,9 +381,24 @@ def gen_function(rng, name, nout):
     return {"name": name, "inputs": ins, "outputs": outs, "protected": prot, "body": body}
 
 
-def gen_fun_model(rng):
-    nout = rng.choice([1, 2, 2])
+def gen_ifdep_statement(rng):
+    """an if-statement that is legal Modelica but outside what exitIfStatement translates faithfully"""
+    g = FGen(rng, ["u", "w", "a", "b"])
+    if rng.random() < 0.5:      # the condition reads a variable assigned in the branches
+        return ["ifst", [[["bin", rng.choice([">", "<"]), ["var", "a"], g.real(0)],
+                          [["assign", "a", ["bin", "-", ["var", "a"], ["num", rng.choice(["5", "3", "2.5"])]]], ["assign", "b", g.real(1)]]]],
+                [["assign", "a", ["var", "a"]], ["assign", "b", g.real(1)]]]
+    # branches assign in different orders and read each other
+    return ["ifst", [[["bin", rng.choice([">", "<"]), ["var", "u"], g.real(0)],
+                      [["assign", "a", g.real(1)], ["assign", "b", ["bin", "+", ["var", "a"], ["num", "10"]]]]]],
+            [["assign", "b", g.real(1)], ["assign", "a", ["bin", "+", ["var", "b"], ["num", "100"]]]]]
+
+
+def gen_fun_model(rng, ifdep=False):
+    nout = rng.choice([1, 2, 2]) if not ifdep else 2
     f = gen_function(rng, "F1", nout)
+    if ifdep:
+        f["body"].insert(rng.randint(3, len(f["body"])), gen_ifdep_statement(rng))
     g = FGen(rng, ["x1", "x2", "x3", "u1", "p1", "time"])
     eqs = []
     if nout == 2:
@@ -642,7 +658,9 @@ def model_text(m):
 
 SCALARS = ["x1", "x2", "x3", "u1", "p1", "k1", "time", "b1", "b2", "n"]
 VAR_ID = {n: i + 1 for i, n in enumerate(SCALARS)}
-ARR_ID = {"a": 20, "c": 21}
+ARR_ID = {"a": 20, "c": 21, "v": 45, "w": 46}
+FUN_VAR_ID = {"u": 31, "w": 32, "a": 33, "b": 34, "t": 35}
+MAT_ID = {"A": 40, "B": 41, "D": 42, "C": 43, "E": 44}
 
 
 def gen_point(rng, N):
@@ -718,6 +736,7 @@ class Ev:
         self.i = None
         self.ftab = []
         self.funs = {}
+        self.if_mode = "modelica"
 
     # reals: (val, lo, hi)
     def real(self, e):
@@ -815,6 +834,7 @@ class Ev:
         vals = [self.real(a) for a in args]
         inner = Ev(dict(zip(f["inputs"], vals)))
         inner.funs = self.funs
+        inner.if_mode = self.if_mode
         inner.run(f["body"])
         self.ftab += inner.ftab
         return [inner.p[o] for o in f["outputs"]]
@@ -823,6 +843,22 @@ class Ev:
         for st in stmts:
             if st[0] == "assign":
                 self.p[st[1]] = self.real(st[2])
+            elif st[0] == "ifst" and self.if_mode == "pymoca":
+                # exitIfStatement + get_function: one merged if_else per assigned variable (in order
+                # of first appearance), each evaluated - conditions included - on the values
+                # already updated by the variables before it
+                order = []
+                for b in [b for _, b in st[1]] + [st[2]]:
+                    for a in b:
+                        if a[1] not in order:
+                            order.append(a[1])
+                for x in order:
+                    blk = st[2]
+                    for c, b in st[1]:
+                        if self.truth(c)[0]:
+                            blk = b
+                            break
+                    self.p[x] = self.real([a[2] for a in blk if a[1] == x][0])
             elif st[0] == "ifst":
                 blk = st[2]
                 for c, b in st[1]:
@@ -1076,7 +1112,7 @@ def has(m, what):
     return what in json.dumps([m["eqs"], m["ieqs"]])
 
 
-def judge(m, r):
+def judge(m, r, if_mode="modelica"):
     """Property oracle.  Returns (why | None, stats)."""
     stats = {"points": 0, "skipped": 0, "entries": 0}
     if "crash" in r:
@@ -1087,6 +1123,7 @@ def judge(m, r):
         p = {k: unfr(v) for k, v in xp.items()}
         ev = Ev(p)
         ev.funs = {f["name"]: f for f in m.get("functions", [])}
+        ev.if_mode = if_mode
         try:
             exp_d = ev.residual(m["eqs"])
             exp_i = ev.residual(m["ieqs"])
@@ -1144,6 +1181,22 @@ def is_neg_literal_failure(m, r):
             and "'symvar' not defined for DM" in r.get("msg", "") and neg_literal_step(m))
 
 
+def ifst_nonsequential(m):
+    """a function with an if-statement whose condition reads a variable the statement assigns, or whose
+    branches assign their variables in different orders"""
+    for f in m.get("functions", []):
+        for st in f["body"]:
+            if st[0] != "ifst":
+                continue
+            blocks = [b for _, b in st[1]] + [st[2]]
+            S = {a[1] for b in blocks for a in b}
+            if any(('["var", "%s"]' % x) in json.dumps(c) for c, _ in st[1] for x in S):
+                return True
+            if len({tuple(a[1] for a in b) for b in blocks}) > 1:
+                return True
+    return False
+
+
 def tag_of(m, r, why):
     """descriptive tags of defects that were found by this check and have since been repaired (a known-findings entry with
     that tag would absorb them; none is listed any more); anything else is a plain violation"""
@@ -1158,6 +1211,8 @@ def tag_of(m, r, why):
         return "for-statement-constant-body"
     if is_neg_literal_failure(m, r):
         return "negative-literal-step"
+    if r.get("generate") == "ok" and ifst_nonsequential(m) and judge(m, r, if_mode="pymoca")[0] is None:
+        return "if-statement-not-sequential"
     return "residual-mismatch"
 
 
@@ -1183,7 +1238,7 @@ def ce(e):
     if t == "bool":
         return "(EBool %s)" % core.cq_bool(e[1])
     if t == "var":
-        return "(ERef (RVar %s))" % core.cq_pos(VAR_ID[e[1]])
+        return "(ERef (RVar %s))" % core.cq_pos((FUN_VAR_ID if _IN_FUN[0] else VAR_ID)[e[1]])
     if t == "der":
         return "(ERef (RDer %s))" % core.cq_pos(VAR_ID[e[1]])
     if t == "idx":
@@ -1218,6 +1273,137 @@ def cqn(q):
     if q[0] == "for3":
         return "(QFor %s %s %s [%s])" % (core.cq_Z(q[1]), core.cq_Z(q[2]), core.cq_Z(q[3]), "; ".join(cs(x) for x in q[4]))
     raise ValueError(q[0])
+
+
+_IN_FUN = [False]
+
+
+def encodable(e):
+    """scalar expressions the Coq model covers: no 2-D element references, no in-expression calls"""
+    j = json.dumps(e)
+    return '"idx2"' not in j and '"call"' not in j
+
+
+def c_assigns(l):
+    return "[%s]" % "; ".join("(%s, %s)" % (core.cq_pos(FUN_VAR_ID[a[1]]), ce(a[2])) for a in l)
+
+
+def c_stmt(st):
+    if st[0] == "assign":
+        return "(SAssign (%s, %s))" % (core.cq_pos(FUN_VAR_ID[st[1]]), ce(st[2]))
+    if st[0] == "ifst":
+        return "(SIf [%s] %s)" % ("; ".join("(%s, %s)" % (ce(c), c_assigns(b)) for c, b in st[1]), c_assigns(st[2]))
+    if st[0] == "forst":
+        return "(SFor %s %s %s %s)" % (core.cq_Z(st[1]), core.cq_Z(1), core.cq_Z(st[2]), c_assigns(st[3]))
+    raise ValueError(st[0])
+
+
+def c_func(f):
+    _IN_FUN[0] = True
+    try:
+        body = "; ".join(c_stmt(st) for st in f["body"])
+    finally:
+        _IN_FUN[0] = False
+    return "{| f_in := [%s]; f_out := [%s]; f_body := [%s] |}" % (
+        "; ".join(core.cq_pos(FUN_VAR_ID[n]) for n in f["inputs"]),
+        "; ".join(core.cq_pos(FUN_VAR_ID[n]) for n in f["outputs"]), body)
+
+
+def c_sub(x):
+    if x == ":":
+        return "SubAll"
+    if isinstance(x, list):
+        return "(SubR %s %s)" % (core.cq_Z(x[1]), core.cq_Z(x[2]))
+    return "(SubI %s)" % core.cq_Z(x)
+
+
+def c_aexpr(e):
+    t = e[0]
+    if t == "A":
+        return "(AVar %s)" % core.cq_pos(MAT_ID.get(e[1]) or ARR_ID[e[1]])
+    if t == "sl":
+        ident = core.cq_pos(MAT_ID.get(e[1]) or ARR_ID[e[1]])
+        if len(e[2]) == 1:
+            return "(ASl1 %s %s)" % (ident, c_sub(e[2][0]))
+        return "(ASl2 %s %s %s)" % (ident, c_sub(e[2][0]), c_sub(e[2][1]))
+    if t == "abin":
+        if e[1] == "*":
+            return "(AMul %s %s)" % (c_aexpr(e[2]), c_aexpr(e[3]))
+        return "(ABin %s %s %s)" % ({"+": "AAdd", "-": "ASub", ".*": "AEMul"}[e[1]], c_aexpr(e[2]), c_aexpr(e[3]))
+    if t == "ascal":
+        return "(AScal %s %s)" % (ce(e[1]), c_aexpr(e[2]))
+    if t == "aneg":
+        return "(ANeg %s)" % c_aexpr(e[1])
+    if t == "atr":
+        return "(ATr %s)" % c_aexpr(e[1])
+    raise ValueError(t)
+
+
+def c_xeqn(m, q):
+    """Coq xeqn for one equation of a fun / mat model, or None when the Coq model does not cover it"""
+    if q[0] == "calleq":
+        if not all(encodable(a) for a in q[3]):
+            return None
+        f = [f for f in m["functions"] if f["name"] == q[2]][0]
+        return "(XCall ([%s], %s, [%s]))" % ("; ".join(core.cq_pos(VAR_ID[n]) for n in q[1]), c_func(f),
+                                             "; ".join(ce(a) for a in q[3]))
+    if q[0] == "aeq":
+        if not encodable(q):
+            return None
+        return "(XArr %s %s)" % (c_aexpr(q[1]), c_aexpr(q[2]))
+    if q[0] == "eq":
+        if not encodable(q):
+            return None
+        return "(XBase %s)" % cqn(q)
+    return None
+
+
+DECL_COQ = "[%s]" % "; ".join(
+    "(%s, %s)" % (core.cq_pos(MAT_ID.get(n) or ARR_ID[n]), "ShV %d%%nat" % sh[0] if len(sh) == 1 else "ShM %d%%nat %d%%nat" % sh)
+    for n, sh in MAT_DECL.items())
+
+
+def encode_xcases(m, r):
+    """Coq xcases (Model/C11_cases.v) for the function and matrix streams"""
+    if m.get("decl") not in ("fun", "mat") or "crash" in r:
+        return []
+    eqs = m["eqs"] + m["ieqs"]
+    xq = [c_xeqn(m, q) for q in eqs]
+    if not any(xq):
+        return []
+    empty_pt = "{| p_sc := []; p_der := []; p_arr := [] |}"
+    if r.get("generate") != "ok":
+        return ["(gen_table, [], %s, [], %s, false, [%s])" % (empty_pt, DECL_COQ, "; ".join("(%s, [])" % x for x in xq if x))]
+    out = []
+    for pi, xp in enumerate(m["xpoints"]):
+        p = {k: unfr(v) for k, v in xp.items()}
+        ev = Ev(p)
+        ev.funs = {f["name"]: f for f in m.get("functions", [])}
+        try:
+            exp = ev.residual(m["eqs"]) + ev.residual(m["ieqs"])
+        except Skip:
+            continue
+        got = list(r["dae"][pi]) + list(r["init"][pi])
+        if len(got) != sum(len(b) for b in exp):
+            got = got + ["nan"] * (sum(len(b) for b in exp) - len(got))
+        k = 0
+        parts = []
+        for x, blk in zip(xq, exp):
+            obs = []
+            for (v, lo, hi) in blk:
+                o = obs_fraction(got[k])
+                k += 1
+                obs.append("None" if o is None else "(Some (%s, %s))" % (cq_qc(o), cq_qc(pow2_above(hi - lo))))
+            if x:
+                parts.append("(%s, [%s])" % (x, "; ".join(obs)))
+        ft = "; ".join("(%s, %s, %s)" % (core.cq_pos(f), cq_qc(a), cq_qc(v)) for f, a, v in ev.ftab)
+        sc = "; ".join("(%s, %s)" % (core.cq_pos(VAR_ID[n]), cq_qc(p[n])) for n in SCALARS if n in p)
+        ar = "; ".join("(%s, [%s])" % (core.cq_pos(ARR_ID[n]), "; ".join(cq_qc(x) for x in p[n])) for n in ("v", "w") if n in p)
+        mats = "; ".join("(%s, [%s])" % (core.cq_pos(MAT_ID[n]), "; ".join("[%s]" % "; ".join(cq_qc(x) for x in row) for row in p[n]))
+                         for n in MAT_ID if n in p)
+        out.append("(gen_table, [%s], {| p_sc := [%s]; p_der := []; p_arr := [%s] |}, [%s], %s, true, [%s])"
+                   % (ft, sc, ar, mats, DECL_COQ, "; ".join(parts)))
+    return out
 
 
 def encode_cases(m, r):
@@ -1388,6 +1574,10 @@ def run(ctx):
             mm = dict(base)
             mm["options"] = opt
             models.append(mm)
+    for _ in range(ctx.scaled(6, 40)):
+        mm = finalize(gen_fun_model(ctx.rng, ifdep=True), ctx.rng, npts)
+        mm["stream"] = "ifdep"
+        models.append(mm)
     for _ in range(n_mat):
         models.append(finalize(gen_mat_model(ctx.rng), ctx.rng, npts))
     import time as _t
@@ -1435,6 +1625,27 @@ def run(ctx):
                               "From Coq Require Import ZArith QArith Qcanon.\nImport ListNotations.\n"
                               "From PV Require Import Model.C11_residual.\nFrom RunC11 Require Import Gen.\nOpen Scope Qc_scope.\n",
                               "case", enc, "check_case", shard=ctx.scaled(60, 150), timeout=1500)
+    xenc, xowner = [], []
+    for i, (m, r) in enumerate(zip(models, results)):
+        cs_ = encode_xcases(m, r)
+        if ctx.tier != "thorough":
+            cs_ = cs_[:1]
+        for c in cs_:
+            xenc.append(c)
+            xowner.append(i)
+    xbad = core.coq_eval_cases(ctx, "xmodels",
+                               "From Coq Require Import ZArith QArith Qcanon.\nImport ListNotations.\n"
+                               "From PV Require Import Model.C11_residual Model.C11_functions Model.C11_arrays Model.C11_cases.\n"
+                               "From RunC11 Require Import Gen.\nOpen Scope Qc_scope.\n",
+                               "xcase", xenc, "check_xcase", shard=ctx.scaled(40, 120), timeout=1500)
+    ctx.oblige("correspondence:function-and-array-model-vs-casadi-generator", xbad == [],
+               "mismatching cases: %s" % ([xowner[j] for j in (xbad or [])][:10] if xbad is not None else "coqc failed"))
+    if xbad and not ctx.violations:
+        i = xowner[xbad[0]]
+        core.violation(ctx, "correspondence-broken",
+                       {"correspondence": "Model/C11_cases.v check_xcase vs generate()+residual functions",
+                        "input": slim(models[i]), "observed": results[i]}, no_input=True)
+    ctx.notes["coq_xcases"] = len(xenc)
     ctx.notes["t_coq_s"] = round(_t.time() - t_coq, 1)
     ctx.oblige("correspondence:model-vs-casadi-generator", bad == [],
                "mismatching cases: %s" % ([owner[j] for j in (bad or [])][:10] if bad is not None else "coqc failed"))
@@ -1471,11 +1682,14 @@ def run(ctx):
         "not modelled: a binary64 residual is accepted iff it lies in a rigorous enclosure of all roundings of the exact value",
         "elementary functions are uninterpreted in the theorems; in the oracle/correspondence they are Python's math functions "
         "applied to the exactly evaluated argument (relative tolerance 1e-9)",
-        "user functions (assignment / if / for statements, multi-statement loop bodies, option sets default, inline_functions="
-        "False, unroll_loops=False) and 2-D arrays (whole-array equations, matrix product, transpose, element and slice "
-        "references, 1-D slices) are generated and judged by the independent exact oracle but are NOT in the Coq model "
-        "(oracle-only); nested loops, delay, interpolation, 3-D arrays are not generated",
+        "user functions (assignment / if / for statements, option sets default, inline_functions=False, unroll_loops=False) "
+        "and 1-D/2-D arrays (whole-array equations, matrix product, transpose, slices) are in the Coq model "
+        "(Model/C11_functions.v, C11_arrays.v) and go through the correspondence (check_xcase) as well as the oracle; "
+        "nested loops, delay, interpolation, 3-D arrays, arrays inside functions are not generated",
         "relations on Boolean operands (e.g. (a or b) == c) are outside the typed grammar (typeof)",
+        "C11_function_partial covers assignment and for-statements; if-statements are in the executable model and the "
+        "correspondence only; in-expression function calls and 2-D element references inside scalar expressions are "
+        "judged by the oracle only",
     ]
 
 
